@@ -503,6 +503,7 @@ class World:
         self.deadlock = False
         self.failures: List[Tuple[str, str, str]] = []   # (oracle, signature, message)
         self.selectors: List[Any] = []
+        self.rr = 0
         self.shuffle_ready = False
         self.task_seq = 0
         self.pipe_seq = 0
@@ -710,8 +711,13 @@ class World:
                 if nd > self.now:
                     self.now = nd
                 continue
-            i = self.tape.draw(len(en), 'sched') if len(en) > 1 else 0
-            ent = en[i]
+            if len(en) > 1:
+                # draw 0 = next in round-robin order, so that an exhausted or
+                # zeroed tape still schedules fairly
+                self.rr += 1
+                ent = en[(self.tape.draw(len(en), 'sched') + self.rr) % len(en)]
+            else:
+                ent = en[0]
             if isinstance(ent, Actor):
                 self.ev(ent.name, 'step', '')
                 ent.step()
@@ -851,6 +857,7 @@ class Remote:
         self.latency = latency
         self.name = name
         self.accepted = 0
+        self.faultable = False
 
 
 def _is_ip(host: str) -> int:
@@ -997,6 +1004,7 @@ def _net_connect(self: World, family: int, host: Any, port: int, timeout: Option
     b.laddr = (host, port)
     b.raddr = a.laddr
     b.owner = 'actor'
+    a.faultable = r.faultable
     done('ok')
     if r.mode == 'reset':
         b.k_reset()
